@@ -15,7 +15,10 @@ LINE_NAMES = ['1', '1a', '1b', '2', '2a', '3', '4z', '10', '11', '12', 'x_3', 't
               'part_3', '25d', '7_checkbox',
               # names whose natural-sort key equals another one's (1a, 2, x_3): order ties must not merge them
               '1_a', '02', 'x3']
-ENUMS = {'E1': ['alpha', 'beta', 'gamma'], 'E2': ['beta', 'delta']}
+# L1 is a *local* enumeration: every form instance that uses it builds its own copy of the class (as the shipped W-2 does for
+# its box 12 codes), so members are only ever compared by name across forms
+ENUMS = {'E1': ['alpha', 'beta', 'gamma'], 'E2': ['beta', 'delta'], 'L1': ['A', 'DD', 'W']}
+ENUM_PICK = ['E1', 'E1', 'E1', 'E2', 'E2', 'L1', 'L1']
 INSTANCES = ['0', '1', '2']
 
 ALL_FAULTS = ['notimpl', 'raise', 'wrong', 'none', 'blank', 'unk_in', 'unk_ln', 'unsup_ln',
@@ -114,7 +117,7 @@ class Gen(object):
                 t = rng.weighted(itypes)
                 spec = {'name': n, 'type': t}
                 if t in ('enum', 'enum_empty'):
-                    spec['enum'] = rng.pick(['E1', 'E2'])
+                    spec['enum'] = rng.pick(ENUM_PICK)
                 inputs.append(spec)
             fs = {'name': name, 'kind': kind, 'multi': multi, 'seq': rng.randrange(4),
                   'inputs': inputs, 'required': [], 'optional': []}
@@ -135,7 +138,7 @@ class Gen(object):
                     if t == 'float' and rng.chance(0.4):
                         l['places'] = rng.pick([0, 1, 2, 3])
                     if t == 'enum':
-                        l['enum'] = rng.pick(['E1', 'E2'])
+                        l['enum'] = rng.pick(ENUM_PICK)
                     (fs['required'] if j < nreq else fs['optional']).append(l)
             forms.append(fs)
         # occasionally a "wide" form: many lines waiting for the same input at the same moment
@@ -331,16 +334,27 @@ class Gen(object):
         if c < 0.8:
             return ['not', self._bool(d - 1)]
         if c < 0.9:
-            en = rng.pick(['E1', 'E2'])
-            return ['isenum', self._enum(en, d - 1), rng.pick(ENUMS[en])]
+            en = rng.pick(ENUM_PICK)
+            return ['isenum', self._enum(en, d - 1, by_name=True), rng.pick(ENUMS[en])]
+        foreign_local = [(fs, i) for fs, i in self._inputs_of_type(('enum', 'enum_empty'))
+                         if i['enum'] == 'L1' and fs is not self.cur_form]
+        if foreign_local and rng.chance(0.6):
+            # "is that statement's code W?": another form's local enumeration, looked at by name
+            fs, i = rng.pick(foreign_local)
+            return ['isenum', ['in', self._ref(fs, i['name']), 'L1'], rng.pick(ENUMS['L1'])]
         return ['gt', self._num(d - 1), ['const', rng.pick([0, 1, 10])]]
 
-    def _enum(self, ename, d):
+    def _enum(self, ename, d, by_name=False):
         """enum-typed expression of enum `ename`; encoded with the enum name as last element
-        for 'in'/'ln' (ignored by the evaluator)."""
+        for 'in'/'ln' (ignored by the evaluator).  by_name: the value is only compared by member name, so a member of
+        another form's copy of a local enumeration will do as well."""
         rng = self.rng
         ins = [(fs, i) for fs, i in self._inputs_of_type(('enum', 'enum_empty')) if i['enum'] == ename]
         ls = self._lines_of_type(('enum',), enum=ename)
+        if ename == 'L1' and not by_name:
+            # the value becomes the value of an enumeration line of THIS form instance: it must come from this instance
+            ins = [(fs, i) for fs, i in ins if fs is self.cur_form]
+            ls = [(fs, l) for fs, l in ls if fs is self.cur_form]
         c = rng.random()
         if ins and c < 0.5:
             fs, i = rng.pick(ins)
@@ -355,6 +369,11 @@ class Gen(object):
         c = rng.random()
         ins = self._inputs_of_type(('str', 'ssn', 'regex'))
         ls = self._lines_of_type(('str',))
+        eins = self._inputs_of_type(('enum', 'enum_empty'))
+        if eins and rng.chance(0.12):
+            # the name of a choice as text
+            fs, i = rng.pick(eins)
+            return ['in', self._ref(fs, i['name'])]
         if ins and c < 0.4:
             fs, i = rng.pick(ins)
             return ['in', self._ref(fs, i['name'])]
